@@ -67,7 +67,10 @@ def table(arms, value_re, what):
 
 
 def extract():
-    info = {}
+    info = {"shape_errors": []}
+
+    def soft(msg):
+        info["shape_errors"].append(msg)
     src = read(GE)
     m = mask(src)
     info["assoc_variants"] = [v for v, _ in enum_variants(GE, "Associativity")]
@@ -153,16 +156,16 @@ def extract():
             "matchexpr.binding_strength().cmp(&parent_strength){Ordering::Greater=>false,Ordering::Less=>true,"
             "Ordering::Equal=>!(rule_3a||rule_3b_left||rule_3b_right),}")
     if squeeze(m[ns:ne]) != want:
-        raise ExtractError("needs_parentheses no longer has the modelled body")
+        soft("needs_parentheses no longer has the modelled body")
     as_, ae = block_after(src, m, r"\bimpl\s+Associativity\b")
     wa = ("fnleft_associative(&self)->bool{matches!(self,Associativity::Left|Associativity::Both)}"
           "fnright_associative(&self)->bool{matches!(self,Associativity::Right|Associativity::Both)}")
     if squeeze(m[as_:ae]) != wa:
-        raise ExtractError("impl Associativity no longer has the modelled body")
+        soft("impl Associativity no longer has the modelled body")
     # translate_operand: wraps iff needs_parentheses
     os_, oe = block_after(src, m, r"\bfn\s+translate_operand\s*\([^{]*\{")
     if squeeze(m[os_:oe]) != "letexpr=translate_expr(expr,context)?;ifneeds_parentheses(&expr,is_left,parent_strength,parent_associativity){Ok(expr.wrap_in_parenthesis())}else{Ok(expr)}":
-        raise ExtractError("translate_operand no longer has the modelled body")
+        soft("translate_operand no longer has the modelled body")
     # wrap_in_parenthesis: Source strength after wrapping
     ws, we = block_after(src, m, r"\bfn\s+wrap_in_parenthesis\s*\([^{]*\{")
     mw = re.search(r"ExprOrSource::Source\(SourceExpr\{text,binding_strength:(\d+),window_frame,\}\)", squeeze(m[ws:we]))
@@ -176,7 +179,7 @@ def extract():
             and "letleft=translate_operand(left.clone(),true,strength,op.associativity(),ctx)?;" in sq
             and "letright=translate_operand(right.clone(),false,strength,op.associativity(),ctx)?;" in sq
             and "Ok(sql_ast::Expr::BinaryOp{left,op,right})" in sq):
-        raise ExtractError("translate_binary_operator changed shape")
+        soft("translate_binary_operator changed shape")
     # process_null
     ps, pe = block_after(src, m, r"\bfn\s+process_null\s*\([^{]*\{")
     sq = squeeze(m[ps:pe])
@@ -186,7 +189,7 @@ def extract():
     if "letstrength=sql_ast::Expr::IsNull(" not in sq or "letstrength=sql_ast::Expr::IsNotNull(" not in sq:
         raise ExtractError("process_null: strength is no longer that of IsNull/IsNotNull")
     if "letoperand=ifmatches!(a.kind,rq::ExprKind::Literal(Literal::Null)){b}else{a};" not in sq:
-        raise ExtractError("process_null: operand selection changed")
+        soft("process_null: operand selection changed")
     info["null_operand"] = calls[0]
     # try_into_between
     ts_, te_ = block_after(src, m, r"\bfn\s+try_into_between\s*\([^{]*\{")
@@ -195,18 +198,18 @@ def extract():
     if [c[0] for c in calls] != ["a_l", "a_r", "b_r"] or sq.count("translate_operand(") != 3:
         raise ExtractError("try_into_between: translate_operand calls changed")
     if 'ifname=="std.and"' not in squeeze(src[ts_:te_]) or 'ifa_name=="std.gte"&&b_name=="std.lte"' not in squeeze(src[ts_:te_]) or "ifa_l==b_l{" not in sq:
-        raise ExtractError("try_into_between: recognised pattern changed")
+        soft("try_into_between: recognised pattern changed")
     info["between_operands"] = [(c[1], int(c[2]), c[3]) for c in calls]
     # translate_expr: order of the special cases for operators
     xs, xe = block_after(src, m, r"\bfn\s+translate_expr\s*\([^{]*\{")
     sq = squeeze(src[xs:xe])
     need = ['"std.eq"|"std.ne"=>{ifletSome([a,b])=', ]
     if '"std.eq"|"std.ne"=>{iflet[a,b]=args.as_slice(){ifa.kind==rq::ExprKind::Literal(Literal::Null)||b.kind==rq::ExprKind::Literal(Literal::Null){returnOk(process_null(name,args,ctx)?.into());}else{letop=operator_from_name(name).unwrap();returnOk(translate_binary_operator(a,b,op,ctx)?.into());}}}' not in sq:
-        raise ExtractError("translate_expr: std.eq/std.ne special case changed")
+        soft("translate_expr: std.eq/std.ne special case changed")
     if '_=>matchtry_into_between(expr.clone(),ctx)?{Some(between_expr)=>returnOk(between_expr.into()),None=>{ifletSome(op)=operator_from_name(name){iflet[left,right]=args.as_slice(){returnOk(translate_binary_operator(left,right,op,ctx)?.into());}}}},' not in sq:
-        raise ExtractError("translate_expr: between / binary operator fall-through changed")
+        soft("translate_expr: between / binary operator fall-through changed")
     if "super::operators::translate_operator_expr(expr,ctx)?" not in sq:
-        raise ExtractError("translate_expr: template fall-through changed")
+        soft("translate_expr: template fall-through changed")
     mm = re.findall(r"rq::ExprKind::SString\(s_string_items\)=>\{lettext=translate_sstring\(s_string_items,ctx\)\?;ExprOrSource::Source\(SourceExpr\{text,binding_strength:(\d+),", sq)
     if len(mm) != 1:
         raise ExtractError("translate_expr: s-string strength not found")
@@ -214,7 +217,7 @@ def extract():
     # case: trailing literal true => ELSE
     if "letdefault=cases.last().filter(|last|{matches!(last.condition.kind,rq::ExprKind::Literal(Literal::Boolean(true)))})" not in sq or \
        ".or(Some(sql_ast::Expr::Value(Value::Null.into())))" not in sq:
-        raise ExtractError("translate_expr: CASE default handling changed")
+        soft("translate_expr: CASE default handling changed")
 
     # operators.rs: translate_operator
     osrc = read(OPS)
@@ -227,15 +230,15 @@ def extract():
     if not (md and mc and mr):
         raise ExtractError("translate_operator changed shape")
     if "text+=&arg.into_source();" not in sq or "text+=s;" not in sq:
-        raise ExtractError("translate_operator: text assembly changed")
+        soft("translate_operator: text assembly changed")
     mco = re.search(r"if!ctx\.query\.window_function\{ifletSome\(default\)=coalesce\{text=format!\(\s*\)?", sq)
     if "binding_strength=100;" not in sq.split("ifletSome(default)=coalesce")[1]:
-        raise ExtractError("translate_operator: coalesce wrapping changed")
+        soft("translate_operator: coalesce wrapping changed")
     info["template_default_strength"] = int(md.group(1))
     info["template_operand"] = (mc.group(1), mc.group(2))
     # params order: named_params then params
     if "letparams=func_def.named_params.iter().chain(func_def.params.iter())" not in sq:
-        raise ExtractError("translate_operator: parameter order changed")
+        soft("translate_operator: parameter order changed")
     return info
 
 
@@ -270,6 +273,10 @@ def generate():
     v += "Definition template_default_strength : nat := %d.\n" % info["template_default_strength"]
     v += "Definition wrapped_source_strength : nat := %d.\nDefinition sstring_strength : nat := %d.\n" % (info["wrapped_source_strength"], info["sstring_strength"])
     v += "(* needs_parentheses / translate_operand / translate_binary_operator / process_null / try_into_between /\n   translate_operator have exactly the bodies modelled in Model/SqlPrint.v (checked textually by the translator) *)\n"
-    v += "Definition algorithm_shapes_ok : bool := true.\n"
+    for e in info["shape_errors"]:
+        v += "(* CHANGED: %s *)\n" % e.replace("*)", "* )")
+    v += "Definition algorithm_shapes_ok : bool := %s.\n" % ("false" if info["shape_errors"] else "true")
     gen_write("GenSqlStrength", v)
+    if info["shape_errors"]:
+        info["error"] = "hand-modelled algorithm(s) changed text: " + "; ".join(info["shape_errors"])
     return info
